@@ -24,7 +24,8 @@ def mixed_units(rnd, n):
     c = termgen.random_agg_units(rnd, n // 4 + 1, maxrows=40)
     d = c05.random_units(rnd, n // 6 + 1)
     e = termgen.random_temporal_units(rnd, n // 5 + 1)
-    us = a + b + c + d + e
+    f = termgen.random_ifds_units(rnd, n // 10 + 1)
+    us = a + b + c + d + e + f
     rnd.shuffle(us)
     us = us[:n]
     for i, u in enumerate(us):
